@@ -170,12 +170,11 @@ def run(tier):
     if ck.require(ii is not None, "IntoInner for CBox"):
         fn, body, sites, nets, loops = ii
         fr = [s for s in sites if s.kind == "box_from_raw"]
-        fg = [s for s in sites if s.kind == "forget"]
+        # `self` is disarmed exactly once: mem::forget(self) or ManuallyDrop::new(self)
+        fg = [s for s in sites if s.kind in ("forget", "manuallydrop_new")]
         ok = len(fr) == 1 and len(fg) == 1 and len(sites) == 2
         if ok:
-            a = forward.leafify(body.origin_operand(fr[0].term["args"][0]))
-            while a[0] == "cast":
-                a = forward.leafify(a[2])
+            a = mir.peel_place(body.origin_operand(fr[0].term["args"][0]))
             b = body.origin_operand(fg[0].term["args"][0])
             ok = a == ("field", ("arg", 1), "instance") and b == ("arg", 1) and all(body.on_all_paths_to_return(s.bb) for s in sites)
         ck.ob("L5-unboxing-forgets-the-box", "cglue/CBox::into_inner", ok, "CBox::into_inner must rebuild the Box from its own instance and forget `self` (else double free / leak)")
